@@ -12,7 +12,8 @@ BI = "xstate_statemachine.base_interpreter:BaseInterpreter."
 SI = "xstate_statemachine.sync_interpreter:SyncInterpreter."
 A = "self._active_state_nodes"
 Q, ACC, REM = "self._event_queue", "self.g_accepted", "self.g_removed"
-STATE = [A, "self._history", "self.context", "self.status", "self.output", "self.error", "self._action_depth"]
+STATE = [A, "self._history", "self.context", "self.status", "self.output", "self.error", "self._action_depth",
+         "self._after_events", "self._after_threads", "self._pending_send_cancels", "self._scheduled_sends", "self._actors"]
 
 
 def register(w):
